@@ -716,6 +716,9 @@ func TestC08(t *testing.T) {
 			if err := json.Unmarshal(raw, &in); err != nil {
 				t.Fatalf("replay input: %v", err)
 			}
+			if in.Kind == "tx" {
+				continue // replayed by TestC08Tx
+			}
 			em.Emit(in, w.runCase(in), nil)
 		}
 		return
